@@ -1,5 +1,6 @@
 """E2 helpers: failing edges (error return / panic), guard tables (CMP rule), dominance between call sites (DOM rule),
 must-pass-through (MPT), effect sets."""
+import re
 from . import cfg
 from . import terms as T
 from . import pat as P
@@ -160,7 +161,8 @@ def guard_table(frame):
             c2, fw2 = _strip_not(cond, fw)
             out.append({"cond": c2, "fail_when": fw2, "bb": bi, "sbb": bi, "loc": body.loc(bi), "kind": "if", "outcome": oc, "vals": vals})
         else:
-            out.append({"cond": cond, "fail_when": vals, "bb": bi, "sbb": bi, "loc": body.loc(bi), "kind": "match", "outcome": oc, "vals": vals})
+            out.append({"cond": cond, "fail_when": vals, "bb": bi, "sbb": bi, "loc": body.loc(bi), "kind": "match", "outcome": oc, "vals": vals,
+                        "arms": [a_[0] for a_ in t.get("arms", [])], "dty": t.get("dty")})
     return out
 
 
@@ -264,6 +266,23 @@ def reject_condition(g):
     """normalise a guard to 'rejects when (a OP b)': returns (op, a, b) or None"""
     c = g["cond"]
     fw = g["fail_when"]
+    if g.get("kind") == "match" and isinstance(fw, list) and g.get("arms") is not None and not (isinstance(c, tuple) and c and c[0] == "discr") and str(g.get("dty") or "").lstrip("ui").isdigit() or (
+            g.get("kind") == "match" and isinstance(fw, list) and g.get("arms") is not None and g.get("dty") in ("usize", "isize", "u8", "u16", "u32", "u64", "u128", "i32", "i64") and not (isinstance(c, tuple) and c and c[0] == "discr")):
+        # `match n { K => ok, other => fail }` on an integer is `n != K`; `match n { K => fail, _ => ok }` is `n == K`
+        arms = [int(a) for a in g["arms"]]
+        if fw == ["else"] and len(arms) == 1:
+            return ("Ne", c, ("c", arms[0], None))
+        if "else" not in fw and len(fw) == 1 and len(arms) >= 1:
+            return ("Eq", c, ("c", int(fw[0]), None))
+        return None
+    if g.get("kind") == "match" and isinstance(fw, list) and isinstance(c, tuple) and len(c) == 2 and c[0] == "discr" and isinstance(c[1], tuple) and c[1] and c[1][0] == "call":
+        # `match uM::try_from(x) { Ok(..) => .., Err(_) => fail }` on unsigned integers fails exactly when x > uM::MAX
+        m_ = re.search(r"TryFrom<(u\d+|usize)> for (u\d+|usize)>::try_from$", c[1][2])
+        if m_ and "1" in fw and "0" not in fw and len(c[1][4]) == 1:
+            bits = lambda ty: 64 if ty == "usize" else int(ty[1:])
+            if bits(m_.group(1)) > bits(m_.group(2)):
+                return ("Gt", c[1][4][0], ("c", (1 << bits(m_.group(2))) - 1, None))
+        return None
     neg = False
     while isinstance(c, tuple) and c and c[0] == "un" and c[1] == "Not":
         c = c[2]
@@ -320,7 +339,7 @@ def rejected_sets(table, var_pred):
     out = []
     for g in table:
         fw = g["fail_when"]
-        if not isinstance(fw, bool):
+        if not isinstance(fw, bool) and not (g.get("kind") == "match" and reject_condition(g) is not None):
             continue
         rc = reject_condition(g)
         if rc is not None:
